@@ -289,7 +289,7 @@ def promote (img : Img) (i idx2 : Nat) (backupcount : Int) : Except Fault Img :=
 
 /-- `qhasharr_remove_by_idx(tbl, idx)` -/
 def removeByIdx (img : Img) (idx : Int) : Except Fault (Img × Res) :=
-  if idx < 0 then pure (img, .err .EINVAL)
+  if idx < 0 ∨ idx ≥ img.maxslots then pure (img, .err .EINVAL)
   else do
     let i := idx.toNat
     let s ← img.rd i
